@@ -141,10 +141,10 @@ HASH_MODELLED = [
 ]
 
 PROPS = {
-    "C04": {"engine": "hash", "modelled": HASH_MODELLED,
+    "C04": {"engine": "hash", "extra_props": ["FactsHash"], "modelled": HASH_MODELLED,
             "assumptions": ["files are not modified by third parties while one Hash call runs",
                             "\"collection of (path, content) pairs\" is read with multiplicity: a path listed twice is hashed twice"]},
-    "C18": {"engine": "hash", "modelled": HASH_MODELLED,
+    "C18": {"engine": "hash", "extra_props": ["FactsHash"], "modelled": HASH_MODELLED,
             "assumptions": ["PARTIAL BY NATURE: the channel protocol is proved for every schedule and CPU count ≥ 1; data races and the real scheduler are only tested",
                             "runtime.NumCPU() ≥ 1"]},
 }
